@@ -1,5 +1,7 @@
 import ObiVerif.Model.PEAlign
 import ObiVerif.Model.PEFillV
+import ObiVerif.Model.PEArena
+import ObiVerif.Model.PEAnnot
 import ObiVerif.Driver.Util
 /-! line protocol for C08 (see `harness/c08.go` for the case-line grammar) -/
 namespace ObiVerif.Driver.C08
@@ -12,6 +14,9 @@ def parsePath (w : String) : Option Path :=
   if w = "-" then some [] else (w.splitOn ",").mapM String.toInt?
 
 def adjFn (t : List UInt8) (q : UInt8) : UInt8 := t.getD q.toNat 0
+
+/-- the quality-adjustment table handed over by the harness must be the literal the table theorems are about -/
+def adjOK (t : List UInt8) : Bool := t == adjAmd64
 
 def consStr : Option Cons → String
   | some c => s!"c={hex c.seq} q={hex c.qual} m={c.nmatch}"
@@ -68,11 +73,15 @@ def parseSettings (ws : List String) : Option Settings :=
     else pure ⟨f = 1, r = 1, d, mo, idn, idd, a, qa, b, qb⟩
   | _ => none
 
-/-- everything after the PEAlign result: consensus and assembled record -/
-def tailStr (st : Settings) (adj : UInt8 → UInt8) (r : PERes) : String :=
+/-- everything after the PEAlign result: consensus, assembled record and all its annotations -/
+def tailStr (st : Settings) (adj : UInt8 → UInt8) (v : Vote) (r : PERes) : String :=
   let c := consensus adj st.a st.qa st.b st.qb r.path
   match c with
-  | some cc => s!"{consStr c} | {asmStr (assemble st.a st.qa st.b st.qb st.minov st.idn st.idd r cc)}"
+  | some cc =>
+    let asm := assemble st.a st.qa st.b st.qb st.minov st.idn st.idd r cc
+    let ann := annotations st.fast v (over st.a.length st.b.length v.shift) asm
+      (mismatchStats st.a st.qa st.b st.qb r.path)
+    s!"{consStr c} | {asmStr asm} ann={ann}"
   | none => "panic | panic"
 
 def voteStr (st : Settings) : Vote × String :=
@@ -85,6 +94,11 @@ def voteStr (st : Settings) : Vote × String :=
 /-- an arena as a previous pair may have left it: wrong sizes, stale values -/
 def junkArena (la lb : Nat) : Mats :=
   ⟨Array.replicate 7 7777, Array.replicate ((la + 1) * (lb + 1) + 5) (-7777)⟩
+
+/-- the whole arena as a previous pair may have left it; the path buffer is too small (regrown) for even
+`la + lb`, larger than needed and full of stale values otherwise -/
+def junkArenaB (la lb : Nat) : Arena :=
+  ⟨junkArena la lb, if (la + lb) % 2 = 0 then Array.replicate 3 4242 else Array.replicate ((la + lb) * 2 + 7) (-4242)⟩
 
 def csv (a : Array Int) : String := ",".intercalate (a.toList.map toString)
 
@@ -99,9 +113,10 @@ def runFm (ws extra : List String) : String :=
       if la = 0 ∨ lb = 0 ∨ qa.length ≠ la ∨ qb.length ≠ lb ∨ scl.length ≠ la * lb ∨ side > 1 then "bad-op" else
       let arr := scl.toArray
       let s := fun i j => arr.getD (i * lb + j) 0
-      let r := if side = 1 then fillLeftA s g la lb (junkArena la lb) else fillRightA s g la lb (junkArena la lb)
+      -- flat matrices and the path buffer written from its end (`arena_refines`)
+      let r := if side = 1 then fillLeftB s g la lb (junkArenaB la lb) else fillRightB s g la lb (junkArenaB la lb)
       match r with
-      | some (fr, m) => s!"sc={fr.score} p={pathStr fr.path} M={csv m.sm} P={csv m.pm}"
+      | some (fr, ar) => s!"sc={fr.score} p={pathStr fr.path} M={csv ar.m.sm} P={csv ar.m.pm}"
       | none => "panic"
     | _, _, _, _, _, _, _ => "bad-op"
   | _, _ => "bad-op"
@@ -113,16 +128,20 @@ def runPe (ws extra : List String) : String :=
     | some g, some adjt, some scl =>
       let la := st.a.length
       let lb := st.b.length
+      if ¬ adjOK adjt then "adj-table-differs" else
       if scl.length ≠ la * lb then "bad-op" else
       let arr := scl.toArray
       let s := fun i j => arr.getD (i * lb + j) 0
       let (v, vs) := voteStr st
       -- exact mode runs the verbatim loop nests over a flat arena holding stale values of the wrong size
       -- (`fills_verbatim_refine`: same result as `peAlignExact` for every arena content)
-      let r := if st.fast then peAlignFastFrom s g la lb st.delta v.shift v.count
-               else (peAlignExactA s g la lb (junkArena la lb)).map (·.1)
+      -- fast mode too: the local fill is the verbatim loop nest over the junk arena, `_Backtracking` writes
+      -- the path buffer of the arena from its end (`arena_refines`: same result as `peAlignExact` /
+      -- `peAlignFastFrom` for every arena content)
+      let r := if st.fast then (peAlignFastFromB s g la lb st.delta v.shift v.count (junkArenaB la lb)).map (·.1)
+               else (peAlignExactB s g la lb (junkArenaB la lb)).map (·.1)
       match r with
-      | some r => s!"L={if r.isLeft then 1 else 0} sc={r.score} p={pathStr r.path} {vs} | {tailStr st (adjFn adjt) r}"
+      | some r => s!"L={if r.isLeft then 1 else 0} sc={r.score} p={pathStr r.path} {vs} | {tailStr st (adjFn adjt) v r}"
       | none => "panic | panic"
     | _, _, _ => "bad-op"
   | _, _ => "bad-op"
@@ -134,12 +153,13 @@ def runPl (ws extra : List String) : String :=
     | some g, some adjt, some il, some p, some ps =>
       let la := st.a.length
       let lb := st.b.length
+      if ¬ adjOK adjt then "adj-table-differs" else
       let isLeft := il = 1
       let sc := if isLeft then scorePs (cALeft g) (cBLeft g la) 0 0 p ps
                 else scorePs (cARight g lb) (cBRight g) 0 0 p ps
-      let (_, vs) := voteStr st
+      let (v, vs) := voteStr st
       let r : PERes := ⟨isLeft, sc, p⟩
-      s!"L={il} sc={sc} p={pathStr p} {vs} | {tailStr st (adjFn adjt) r}"
+      s!"L={il} sc={sc} p={pathStr p} {vs} | {tailStr st (adjFn adjt) v r}"
     | _, _, _, _, _ => "bad-op"
   | _, _ => "bad-op"
 
@@ -154,6 +174,7 @@ def run (line : String) : String :=
       match unhex a, unhex qa, unhex b, unhex qb, parsePath p, unhex extra.trimAscii.toString with
       | some a, some qa, some b, some qb, some p, some adjt =>
         if a.length ≠ qa.length ∨ b.length ≠ qb.length then "bad-op"
+        else if ¬ adjOK adjt then "adj-table-differs"
         else consStr (consensus (adjFn adjt) a qa b qb p)
       | _, _, _, _, _, _ => "bad-op"
     | _ => "bad-op"
